@@ -898,17 +898,23 @@ fn spawn_fake_peers(sock: &std::path::Path, rsock: &std::path::Path) -> std::syn
     use std::sync::{Arc, Mutex};
     let sock = sock.to_path_buf();
     let rsock = rsock.to_path_buf();
+    // a second service (interfaces starting with org.other resolve to it): <service socket>2
+    let sock2 = std::path::PathBuf::from(format!("{}2", sock.display()));
+    let _ = std::fs::remove_file(&sock2);
     let seen: Arc<Mutex<Vec<(String, String)>>> = Arc::new(Mutex::new(Vec::new()));   // (which socket, method + parameters)
     let service_addr = format!("unix:{}", sock.display());
-    for (which, path) in [("service", sock.clone()), ("resolver", rsock.clone())] {
+    let service2_addr = format!("unix:{}", sock2.display());
+    for (which, path) in [("service", sock.clone()), ("service2", sock2.clone()), ("resolver", rsock.clone())] {
         let l = UnixListener::bind(&path).unwrap();
         let seen = seen.clone();
         let service_addr = service_addr.clone();
+        let service2_addr = service2_addr.clone();
         std::thread::spawn(move || {
             for st in l.incoming() {
                 let st = match st { Ok(s) => s, Err(_) => return };
                 let seen = seen.clone();
                 let service_addr = service_addr.clone();
+                let service2_addr = service2_addr.clone();
                 std::thread::spawn(move || {
                     let mut w = st.try_clone().unwrap();
                     let mut r = BufReader::new(st);
@@ -921,7 +927,10 @@ fn spawn_fake_peers(sock: &std::path::Path, rsock: &std::path::Path) -> std::syn
                         seen.lock().unwrap().push((which.to_string(), format!("{} {}", method, req["parameters"])));
                         if req["oneway"] == json!(true) { continue; }
                         let replies: Vec<Value> = if method == "org.varlink.resolver.Resolve" {
-                            vec![json!({"parameters": {"address": service_addr}})]
+                            let to2 = req["parameters"]["interface"].as_str().map(|i| i.starts_with("org.other")).unwrap_or(false);
+                            vec![json!({"parameters": {"address": if to2 { service2_addr.clone() } else { service_addr.clone() }}})]
+                        } else if method == "org.varlink.service.GetInterfaceDescription" {
+                            vec![json!({"parameters": {"description": format!("described by {}", which)}})]
                         } else if method.ends_with(".GetInfo") {
                             vec![json!({"parameters": {"vendor": which, "product": "fake", "version": "1", "url": "http://example.org", "interfaces": ["org.varlink.service"]}})]
                         } else if method.ends_with(".StreamCut") {
@@ -1043,7 +1052,7 @@ fn search_cert(obs: &[&str]) {
     let call = |method: &str, params: Value, more: bool| -> Vec<Value> {
         let mut out = Vec::new();
         let st = match UnixStream::connect(&sock) { Ok(s) => s, Err(_) => return out };
-        let _ = st.set_read_timeout(Some(Duration::from_millis(3000)));
+        let _ = st.set_read_timeout(Some(Duration::from_millis(8000)));
         let mut w = match st.try_clone() { Ok(w) => w, Err(_) => return out };
         let mut req = json!({"method": format!("org.varlink.certification.{}", method), "parameters": params});
         if more { req["more"] = json!(true); }
@@ -1226,6 +1235,15 @@ fn search_bridge(obs: &[&str]) {
         vec![(json!({"method": "org.example.Fail"}), vec![fail.clone()]), (json!({"method": "org.example.Ping"}), vec![pong.clone()])],
         vec![(json!({"method": "org.example.StreamFail", "more": true}), vec![json!({"continues": true, "parameters": {"n": 1}}), fail.clone()]), (json!({"method": "org.other.deep.name.Ping"}), vec![pong.clone()])],
         vec![(json!({"method": "org.varlink.service.GetInfo"}), vec![json!({"parameters": {"vendor": "resolver", "product": "fake", "version": "1", "url": "http://example.org", "interfaces": ["org.varlink.service"]}})])],
+        // the same interface before and after a service-info query (the address cache must not go stale)
+        vec![(json!({"method": "org.example.Ping"}), vec![pong.clone()]),
+             (json!({"method": "org.varlink.service.GetInfo"}), vec![json!({"parameters": {"vendor": "resolver", "product": "fake", "version": "1", "url": "http://example.org", "interfaces": ["org.varlink.service"]}})]),
+             (json!({"method": "org.example.Ping"}), vec![pong.clone()])],
+        // descriptions of two interfaces that live in two services, back to back, then a call
+        vec![(json!({"method": "org.varlink.service.GetInterfaceDescription", "parameters": {"interface": "org.example"}}), vec![json!({"parameters": {"description": "described by service"}})]),
+             (json!({"method": "org.varlink.service.GetInterfaceDescription", "parameters": {"interface": "org.other.thing"}}), vec![json!({"parameters": {"description": "described by service2"}})]),
+             (json!({"method": "org.other.thing.Ping"}), vec![pong.clone()]),
+             (json!({"method": "org.varlink.service.GetInterfaceDescription", "parameters": {"interface": "org.example"}}), vec![json!({"parameters": {"description": "described by service"}})])],
     ];
     for script in scripts {
         explored += 1;
@@ -1252,7 +1270,7 @@ fn search_bridge(obs: &[&str]) {
             if stdin.write_all(&b).is_err() || stdin.flush().is_err() { break; }
             let mut got = Vec::new();
             for _ in 0..want.len() {
-                match rx.recv_timeout(Duration::from_millis(3000)) { Ok(v) => got.push(v), Err(_) => { stalled = true; break; } }
+                match rx.recv_timeout(Duration::from_millis(8000)) { Ok(v) => got.push(v), Err(_) => { stalled = true; break; } }
             }
             got_all.push(got);
             if stalled { break; }
@@ -1273,8 +1291,12 @@ fn search_bridge(obs: &[&str]) {
         if stalled && script.iter().any(|(r, _)| r["oneway"] == json!(true)) { found.entry("oneway").or_insert(detail.clone()); }
         // what the service saw: every request that is not GetInfo, method and parameters unchanged, in order
         let want_seen: Vec<String> = script.iter().filter(|(r, _)| r["method"] != json!("org.varlink.service.GetInfo")).map(|(r, _)| format!("{} {}", r["method"].as_str().unwrap(), r["parameters"])).collect();
-        let got_seen: Vec<String> = peer_saw.iter().filter(|(w, _)| w == "service").map(|(_, m)| m.clone()).collect();
-        if got_seen != want_seen { found.entry("request").or_insert(detail.clone()); }
+        let got_seen: Vec<String> = peer_saw.iter().filter(|(w, _)| w == "service" || w == "service2").map(|(_, m)| m.clone()).collect();
+        // (the bridge opens one connection per request and does not wait after a oneway request, so the ORDER in which a service observes requests that
+        //  arrive on different connections is not determined: compared as multisets)
+        let (mut gs, mut ws) = (got_seen.clone(), want_seen.clone());
+        gs.sort(); ws.sort();
+        if gs != ws { found.entry("request").or_insert(detail.clone()); }
         if script.iter().any(|(r, _)| r["method"] == json!("org.varlink.service.GetInfo")) && !peer_saw.iter().any(|(w, m)| w == "resolver" && m.starts_with("org.varlink.resolver.GetInfo")) {
             found.entry("getinfo").or_insert(detail.clone());
         }
@@ -1284,6 +1306,75 @@ fn search_bridge(obs: &[&str]) {
     for ob in obs {
         let class = match *ob { "C18.relay" | "C18.copy" => "relay", "C18.request" => "request", "C18.getinfo" => "getinfo", "C18.oneway" => "oneway", _ => "none" };
         let f = found.get(class).or_else(|| found.get("relay")).or_else(|| found.get("request")).or_else(|| found.get("getinfo")).or_else(|| found.get("oneway")).or_else(|| found.get("exit"));
+        emit(ob, f.is_some(), explored, f.cloned().unwrap_or(Value::Null));
+    }
+}
+
+// C08 (slice): the generated dispatch and client stubs inside the real `varlink-certification` binary ($VX_CERT_BIN): the binary's own client mode (generated
+// client stubs) must complete the sequence against its server mode (generated dispatch); raw requests with missing / ill-typed parameters must be answered
+// with InvalidParameter, an unknown method of the interface with MethodNotFound.
+fn search_gen(obs: &[&str]) {
+    use std::os::unix::net::UnixStream;
+    let mut found: std::collections::HashMap<&'static str, Value> = std::collections::HashMap::new();
+    let mut explored = 0usize;
+    let bin = match std::env::var("VX_CERT_BIN") { Ok(b) if std::path::Path::new(&b).exists() => b, _ => {
+        for ob in obs { println!("{}", json!({"obligation": ob, "found": false, "explored": 0, "detail": Value::Null, "note": "VX_CERT_BIN not built"})); }
+        return;
+    } };
+    let dir = std::env::temp_dir().join(format!("vx-c08-{}", std::process::id()));
+    let _ = std::fs::create_dir_all(&dir);
+    let sock = dir.join("cert");
+    let mut child = match std::process::Command::new(&bin).arg(format!("--varlink=unix:{}", sock.display())).arg("--timeout").arg("60")
+        .stdin(std::process::Stdio::null()).stdout(std::process::Stdio::null()).stderr(std::process::Stdio::null()).spawn() { Ok(c) => c, Err(_) => return };
+    for _ in 0..200 { if sock.exists() { break; } std::thread::sleep(Duration::from_millis(20)); }
+    let raw = |req: Value| -> Vec<Value> {
+        let mut out = Vec::new();
+        let st = match UnixStream::connect(&sock) { Ok(s) => s, Err(_) => return out };
+        let _ = st.set_read_timeout(Some(Duration::from_millis(8000)));
+        let mut w = match st.try_clone() { Ok(w) => w, Err(_) => return out };
+        let mut b = serde_json::to_vec(&req).unwrap(); b.push(0);
+        if w.write_all(&b).is_err() { return out; }
+        let mut r = BufReader::new(st);
+        let mut buf = Vec::new();
+        if let Ok(n) = r.read_until(0, &mut buf) { if n > 0 { buf.pop(); if let Ok(v) = serde_json::from_slice::<Value>(&buf) { out.push(v); } } }
+        out
+    };
+    // client mode of the same binary (generated client stubs) against the server
+    explored += 1;
+    let c = std::process::Command::new(&bin).arg(format!("--varlink=unix:{}", sock.display())).arg("--client")
+        .stdin(std::process::Stdio::null()).stdout(std::process::Stdio::null()).stderr(std::process::Stdio::piped()).output();
+    match c {
+        Ok(o) if o.status.success() => {}
+        Ok(o) => { found.entry("client").or_insert(json!({"what": "the binary's client mode (generated client stubs) did not complete the sequence against its own server mode", "stderr_tail": String::from_utf8_lossy(&o.stderr).chars().rev().take(600).collect::<String>().chars().rev().collect::<String>()})); }
+        Err(_) => {}
+    }
+    let is_err = |rs: &Vec<Value>, name: &str| rs.len() == 1 && rs[0]["error"] == json!(name);
+    for m in ["Test01", "Test02", "Test06", "Test09", "End"] {
+        explored += 1;
+        let rs = raw(json!({"method": format!("org.varlink.certification.{}", m)}));
+        if !(is_err(&rs, "org.varlink.service.InvalidParameter") && rs[0]["parameters"]["parameter"] == json!("parameters")) {
+            found.entry("dispatch").or_insert(json!({"what": "a method that takes parameters was called without `parameters`", "method": m, "replies": rs, "expected": "InvalidParameter(parameters)"}));
+        }
+    }
+    for (m, p) in [("Test01", json!({"client_id": 7})), ("Test02", json!({"client_id": "x", "bool": "yes"})), ("Test03", json!({"client_id": "x"})), ("Test08", json!({"client_id": "x", "map": [1, 2]}))] {
+        explored += 1;
+        let rs = raw(json!({"method": format!("org.varlink.certification.{}", m), "parameters": p}));
+        if !is_err(&rs, "org.varlink.service.InvalidParameter") {
+            found.entry("dispatch").or_insert(json!({"what": "ill-typed or missing parameter", "method": m, "parameters": p, "replies": rs, "expected": "InvalidParameter"}));
+        }
+    }
+    for m in ["Nope", "test01", "Test1", "Test011"] {
+        explored += 1;
+        let rs = raw(json!({"method": format!("org.varlink.certification.{}", m), "parameters": {}}));
+        if !(is_err(&rs, "org.varlink.service.MethodNotFound") && rs[0]["parameters"]["method"] == json!(format!("org.varlink.certification.{}", m))) {
+            found.entry("dispatch").or_insert(json!({"what": "a method the interface does not have", "method": m, "replies": rs, "expected": "MethodNotFound naming the full method"}));
+        }
+    }
+    let _ = child.kill(); let _ = child.wait();
+    let _ = std::fs::remove_dir_all(&dir);
+    for ob in obs {
+        let class = match *ob { "C08.dispatch" => "dispatch", _ => "client" };
+        let f = found.get(class).or_else(|| found.get("dispatch")).or_else(|| found.get("client"));
         emit(ob, f.is_some(), explored, f.cloned().unwrap_or(Value::Null));
     }
 }
@@ -1326,6 +1417,8 @@ fn main() {
     if !cli.is_empty() { search_cli(&cli); }
     let br: Vec<&str> = ["C18.relay", "C18.copy", "C18.request", "C18.getinfo", "C18.oneway", "C18.no-panic"].iter().cloned().filter(|o| m(o)).collect();
     if !br.is_empty() { search_bridge(&br); }
+    let gen: Vec<&str> = ["C08.dispatch", "C08.method-name", "C08.args", "C08.client", "C08.no-panic"].iter().cloned().filter(|o| m(o)).collect();
+    if !gen.is_empty() { search_gen(&gen); }
     let cert: Vec<&str> = ["C19.gate", "C19.step", "C19.own-id", "C19.mode", "C19.value"].iter().cloned().filter(|o| m(o)).collect();
     if !cert.is_empty() { search_cert(&cert); }
     let wr: Vec<&str> = ["C17.wire-attrs"].iter().cloned().filter(|o| m(o)).collect();
